@@ -931,7 +931,7 @@ MAIN.update({
         mc=dict(quick=[mc("MC_Forest.cfg", "cancel_txn", {"WithCancel": "TRUE", "WithTxn": "TRUE", "Ids": "{1, 2, 3}", "Toks": "{\"a\"}"})],
                 thorough=[mc("MC_Forest.cfg", "cancel_txn_2toks", {"WithCancel": "TRUE", "WithTxn": "TRUE"}, timeout=700)]),
         traces=dict(quick=[dict(family="cancel", jobs=6, count=2, threads=[1, 1, 1, 4, 1, 2]), dict(family="faults", jobs=4, count=2, hist_per_count=90, seed_off=50)],
-                    thorough=[dict(family="cancel", jobs=12, count=4, threads=[1, 1, 4, 1, 2, 16]), dict(family="faults", jobs=4, count=6, hist_per_count=90, seed_off=50)]),
+                    thorough=[dict(family="cancel", jobs=12, count=2, threads=[1, 1, 4, 1, 2, 16]), dict(family="faults", jobs=4, count=6, hist_per_count=90, seed_off=50)]),
         distinct=distinct_events, sample_event="Build",
         also=lambda prop, conj: prop in ("C01", "C02", "C08") or (prop == "C14" and conj.startswith("build_failed")),
         level="fault_enumeration",
